@@ -1,4 +1,5 @@
 import StepModel.ExpDecl
+import StepModel.ExpParseLemmas
 /-!
 # C07 — pretty-printed EXPRESS is valid, equivalent to its source and stable
 
@@ -246,6 +247,47 @@ theorem C07_stable (sh : Shared) (e : Expr) (paren : Bool) (prev : Option BinOp)
 theorem C07_stable_twice (sh : Shared) (e : Expr) (paren : Bool) (prev : Option BinOp) :
     toks sh (norm (norm e)) paren prev = toks sh e paren prev := by
   rw [C07_stable, C07_stable]
+
+/-! ### parse ∘ print -/
+
+/-- **The parser reads exppp's text back as the normal form.**  For every expression of the operator core (literals,
+identifiers, all 21 two-operand operators in any nesting, negation, NOT — `Core`), in top-level position, the precedence
+parser driven by the regenerated `%left/%right` levels and strata returns exactly `norm e` on the tokens of the printed
+expression.  Partial: qualifiers, function calls, aggregate initialisers and QUERY are outside `Core` (they are tied by
+the byte comparison and the oracle only); real literals must keep a non-digit in their printed form (`LitWF`). -/
+theorem C07_parse_print_core_partial (e : Expr) (hc : Core e) :
+    parse (toks Shared.clean e false none) = some (norm e) := by
+  obtain ⟨c, hc1, hc2, L⟩ := (parseOK_core e hc).loop false none
+  have hlen := toks_length_ge e hc false none
+  have hcond : LoopCond e false none 0 [] := by
+    cases e <;> simp [LoopCond, Fol]
+  have h := L (4 * (T e false none).length + 8) (by omega) 0 [] hcond (by simp [NoQ])
+  simp only [List.append_nil] at h
+  unfold parse
+  show (match parseExpr (4 * (T e false none).length + 8) 0 (T e false none) with
+        | some (e, []) => some e
+        | _ => none) = some (norm e)
+  rw [h]
+  obtain ⟨j, hj⟩ : ∃ j, 4 * (T e false none).length + 8 - c = j + 1 := ⟨4 * (T e false none).length + 8 - c - 1, by omega⟩
+  rw [hj, parseLoop_stop j 0 (norm e) [] (by simp [Fol])]
+
+/-- … hence the text is accepted by the expression grammar and denotes the source expression up to re-association of
+operators that are associative in EXPRESS -/
+theorem C07_parse_print_equiv_core_partial (e : Expr) (hc : Core e) :
+    ∃ e', parse (toks Shared.clean e false none) = some e' ∧ Equiv e e' :=
+  ⟨norm e, C07_parse_print_core_partial e hc, C07_norm_equiv e⟩
+
+/-- … and printing what was read gives the same tokens again (second printing = first) -/
+theorem C07_reprint_core_partial (e : Expr) (hc : Core e) :
+    (parse (toks Shared.clean e false none)).map (fun e' => toks Shared.clean e' false none)
+      = some (toks Shared.clean e false none) := by
+  rw [C07_parse_print_core_partial e hc]
+  simp [C07_stable]
+
+example : Core (.bin .eq (.ident "x") (.bin .eq (.ident "x") (.lit (.int 1)))) :=
+  .bin _ (.ident _) (.bin _ (.ident _) (.lit _ trivial))
+example : parse (toks Shared.clean (.bin .minus (.ident "a") (.bin .minus (.ident "b") (.neg (.ident "c")))) false none)
+    = some (.bin .minus (.ident "a") (.bin .minus (.ident "b") (.neg (.ident "c")))) := by decide
 
 /-! ### literals, labels, shared nodes -/
 
